@@ -93,6 +93,7 @@ def props_of_spec(sp):
     ps = set(sp.props)
     if not sp.qual.startswith('lemma_'):
         ps.add('C20')       # every function under contract carries the arm-parametricity obligation (MT3)
+        ps.add('C19')       # ... and the attribute-universe obligation
     for cl in sp.requires + sp.ensures + sp.ensures_raises:
         if cl.props:
             ps |= set(cl.props)
@@ -107,8 +108,17 @@ def _gen_worker(target):
     forced = dict(target[2]) if len(target) > 2 else None
     from . import smt
     t0 = time.time()
+    # names of fresh constants and binders are a function of the target alone (not of what this worker process
+    # generated before), so the SMT text - and with it the solver's behaviour - is the same on every run
+    smt._counter[0] = 1000000
+    smt._bv[0] = 1000000
+    del smt.FRESH_LOG[:]
     try:
-        obs, probs = _ENG.verify(qual, cls, forced=forced)
+        if qual == 'static:copy':
+            from . import verify
+            obs, probs = verify.static_obligations(_ENG), []
+        else:
+            obs, probs = _ENG.verify(qual, cls, forced=forced)
         obs = dedupe(obs)
         out = []
         for ob in obs:
@@ -224,6 +234,8 @@ def run_property(eng, prop, args):
     for qual, cls in sorted(set(targets)):
         for f in target_splits(eng, qual, cls):
             split.append((qual, cls, tuple(sorted(f.items()))))
+    if prop in ('C19', 'all'):
+        split.append(('static:copy', None, ()))
     gen = generate(eng, split, args.jobs)
     records = []
     problems = []
@@ -362,8 +374,10 @@ def finish(eng, prop, tier, seed, targets, records, problems, crashes, missing, 
         else:
             print('lean: %d laws re-proved in %.0fs (axioms: %s)' % (args.lean['theorems_checked'], args.lean['seconds'],
                                                                      ', '.join(args.lean['axioms_used'])))
+    from . import runtime as _rt
+    rt_cases = sum(b.get('cases', 0) for b in getattr(args, 'bounded', []))
     if status == 0:
-        if crashes or n == 0:
+        if crashes or (n == 0 and not (prop in _rt.BOUNDED_ONLY and rt_cases > 0)):
             status = 3
         elif undecided or problems or missing:
             status = 2
@@ -399,28 +413,42 @@ def write_evidence(eng, prop, tier, seed, targets, records, problems, known_hits
                             'backend': r['backend'], 'seconds': round(r['seconds'], 3),
                             'smtlib_head': r['smt2'][-1500:]})
     trusted = trusted_base(axioms)
+    from . import runtime as _rt
+    bounded = getattr(args, 'bounded', [])
+    bounded_only = prop in _rt.BOUNDED_ONLY
+    cov = {
+        'obligations': n, 'discharged': d,
+        'checker_cmd': 'python3-vt -m pyvc.main %s --tier %s' % (prop, tier),
+        'trusted_base': trusted,
+        'functions_under_contract': sorted('%s[%s]' % (t[0], t[1]) if t[1] else t[0] for t in targets),
+        'obligations_by_kind': kinds,
+        'discharged_by_backend': backends,
+        'solver_seconds': round(sum(r['seconds'] for r in records), 2),
+        'vcgen_seconds': round(gen_s, 2),
+        'source_digest': eng.repo.digest,
+        'undischarged': [{'obligation': r['name'], 'status': r['status'], 'reason': r['reason']}
+                         for r in records if r['status'] != 'discharged'],
+        'out_of_reach': [{'function': p[0], 'why': p[2]} for p in problems],
+        'known_findings': sorted({f['id'] for f, _ in known_hits} | set(getattr(args, 'rt_known_ids', []))),
+        'known_finding_obligations': sorted({r['name'] for _, r in known_hits}),
+        'samples': samples,
+        'bounded': [{k: v for k, v in b.items() if k != 'samples'} for b in bounded],
+        'lean_laws': getattr(args, 'lean', None) or
+        'laws of kind "lemma" are re-proved by the thorough tier (tools/lean_check.py, lemmas/lean/SeqLaws.lean)',
+    }
+    if bounded_only:
+        # nothing is proved for this property: exploration-style evidence of the bounded leg; the few obligations of
+        # shared functions that carry this property's tag are reported but do not make it a proof
+        cov['evaluations'] = sum(b.get('cases', 0) for b in bounded)
+        cov['distinct_nontrivial'] = sum(b.get('distinct_cases', 0) for b in bounded)
+        cov['rule'] = ('cases are enumerated by rt/props.py check_%s: one case = one policy combination with one call '
+                       'history and its queries; distinct = distinct JSON of the case; every case drives the real API and '
+                       'compares against the reference semantics, so every case is non-trivial' % prop)
+        cov['samples'] = [s for b in bounded for s in b.get('samples', [])][:3] or samples
+        cov['exhaustive'] = False
     ev = {
-        'property_id': prop, 'tier': tier, 'seed': seed, 'level': 'proof',
-        'coverage': {
-            'obligations': n, 'discharged': d,
-            'checker_cmd': 'python3-vt -m pyvc.main %s --tier %s' % (prop, tier),
-            'trusted_base': trusted,
-            'functions_under_contract': sorted('%s[%s]' % (t[0], t[1]) if t[1] else t[0] for t in targets),
-            'obligations_by_kind': kinds,
-            'discharged_by_backend': backends,
-            'solver_seconds': round(sum(r['seconds'] for r in records), 2),
-            'vcgen_seconds': round(gen_s, 2),
-            'source_digest': eng.repo.digest,
-            'undischarged': [{'obligation': r['name'], 'status': r['status'], 'reason': r['reason']}
-                             for r in records if r['status'] != 'discharged'],
-            'out_of_reach': [{'function': p[0], 'why': p[2]} for p in problems],
-            'known_findings': sorted({f['id'] for f, _ in known_hits} | set(getattr(args, 'rt_known_ids', []))),
-            'known_finding_obligations': sorted({r['name'] for _, r in known_hits}),
-            'samples': samples,
-            'bounded': getattr(args, 'bounded', []),
-            'lean_laws': getattr(args, 'lean', None) or
-            'laws of kind "lemma" are re-proved by the thorough tier (tools/lean_check.py, lemmas/lean/SeqLaws.lean)',
-        },
+        'property_id': prop, 'tier': tier, 'seed': seed, 'level': 'exploration' if bounded_only else 'proof',
+        'coverage': cov,
         'assumptions': assumptions(),
         'wall_s': round(time.time() - t0, 2),
         'violations': len(violations),
